@@ -479,6 +479,21 @@ func (fi *FnInfo) load(u *ssa.UnOp) *Term {
 			// zero value or initialised through field stores / callee writes: name by the place
 			return fi.place(a)
 		}
+		// a store to the same non-escaping variable earlier in the same block reaches this load
+		if !fi.allocEsc[a] {
+			var last ssa.Value
+			for _, in := range u.Block().Instrs {
+				if in == ssa.Instruction(u) {
+					break
+				}
+				if st, ok := in.(*ssa.Store); ok && st.Addr == ssa.Value(a) {
+					last = st.Val
+				}
+			}
+			if last != nil {
+				return fi.T(last)
+			}
+		}
 		return fi.uniq(TVar, "load:"+a.Comment, u)
 	case *ssa.FreeVar:
 		return fi.uniq(TVar, "load:free:"+a.Name(), u)
@@ -595,6 +610,10 @@ func (fi *FnInfo) call(c *ssa.Call) *Term {
 		pure = len(cc.Args) == 0 && strings.HasPrefix(cc.Method.Name(), "Get")
 	} else if f := cc.StaticCallee(); f != nil {
 		callee = origin(f)
+		if fld, ok := fi.p.pbGetter(callee); ok && len(cc.Args) == 1 {
+			// generated protobuf getter GetX() == field X for non-nil receivers
+			return mk(TField, fld, c.Type(), c, fi.T(cc.Args[0]))
+		}
 		name = calleeName(f)
 		pure = fi.p.isPure(callee)
 	} else {
@@ -803,4 +822,26 @@ func intConst(t *Term) (int64, bool) {
 	}
 	v, ok := constant.Int64Val(t.C)
 	return v, ok
+}
+
+// pbGetter recognises generated protobuf getters `func (x *T) GetF() U` in *.pb.go files whose
+// struct has a field F, and returns the field name.
+func (p *Prog) pbGetter(fn *ssa.Function) (string, bool) {
+	if fn == nil || fn.Signature.Recv() == nil || !strings.HasPrefix(fn.Name(), "Get") {
+		return "", false
+	}
+	if !strings.HasSuffix(p.fileOf(fn), ".pb.go") {
+		return "", false
+	}
+	st, ok := deref(fn.Signature.Recv().Type()).Underlying().(*types.Struct)
+	if !ok {
+		return "", false
+	}
+	want := strings.TrimPrefix(fn.Name(), "Get")
+	for i := 0; i < st.NumFields(); i++ {
+		if st.Field(i).Name() == want {
+			return want, true
+		}
+	}
+	return "", false
 }
